@@ -32,11 +32,12 @@ type Prog struct {
 	CG       *callgraph.Graph
 	Funcs    []*ssa.Function // module functions with bodies (incl. anonymous, wrappers, instantiations)
 
-	ea           *ErrAtoms
-	ls           *Lockset
-	apiReachMemo map[*ssa.Function]map[string]bool
-	fileParamFx  map[*ssa.Function]map[int][2]bool
-	R            *Roles
+	ea             *ErrAtoms
+	ls             *Lockset
+	apiReachMemo   map[*ssa.Function]map[string]bool
+	fieldsReadMemo map[*types.Var]bool
+	fileParamFx    map[*ssa.Function]map[int][2]bool
+	R              *Roles
 
 	Stats struct {
 		Packages  int
